@@ -130,12 +130,50 @@ def hooks_model(tag, uid):
     }[tag]
 
 
-def resolve(tag, uid):
+class FalsyBool:
+    """A callable OBJECT whose truth value is False: "is there a hook / validator / converter" must be
+    decided with `is not None`, never by truthiness."""
+
+    def __init__(self, fn):
+        self.fn, self.sym, self.ann = fn, fn.sym, getattr(fn, "ann", None)
+
+    def __call__(self, *a):
+        return self.fn(*a)
+
+    def __bool__(self):
+        return False
+
+
+class FalsyLen:
+    """... falsy through an empty __len__."""
+
+    def __init__(self, fn):
+        self.fn, self.sym, self.ann = fn, fn.sym, getattr(fn, "ann", None)
+
+    def __call__(self, *a):
+        return self.fn(*a)
+
+    def __len__(self):
+        return 0
+
+
+def falsify(fn, how):
+    return fn if not how else {"bool": FalsyBool, "len": FalsyLen}[how](fn)
+
+
+def pick_falsy(rng, p=0.3):
+    return rng.choice(["bool", "len"]) if rng.random() < p else None
+
+
+def resolve(tag, uid, falsy=None):
+    """falsy: every user-written hook of this setting (alone or as a list member) is a falsy callable object"""
     if tag is None:
         return None
     if tag == "NO_OP":
         return setters.NO_OP
-    h = lambda n: g.mk_hook(n + "_" + uid)
+    h = lambda n: falsify(g.mk_hook(n + "_" + uid), falsy)
+    mk_nil = mk_nil_hook
+    mk_nil_hook_ = lambda n: falsify(mk_nil(n), falsy)
     return {
         "validate": lambda: setters.validate, "convert": lambda: setters.convert, "frozen": lambda: setters.frozen,
         "user": lambda: h("h"), "list_cv": lambda: [setters.convert, setters.validate],
@@ -145,9 +183,9 @@ def resolve(tag, uid):
         "list_user2": lambda: [h("h1"), setters.validate, h("h2")],
         "list_uc": lambda: [h("h"), setters.convert], "list_cu": lambda: [setters.convert, h("h")],
         "list_empty": lambda: [], "list_vf": lambda: [setters.validate, setters.frozen],
-        "nil_user": lambda: mk_nil_hook("nil_h_" + uid), "list_nil": lambda: [mk_nil_hook("nil_h_" + uid)],
-        "list_nil_v": lambda: [mk_nil_hook("nil_h_" + uid), setters.validate],
-        "list_nil_u": lambda: [mk_nil_hook("nil_h_" + uid), h("h")],
+        "nil_user": lambda: mk_nil_hook_("nil_h_" + uid), "list_nil": lambda: [mk_nil_hook_("nil_h_" + uid)],
+        "list_nil_v": lambda: [mk_nil_hook_("nil_h_" + uid), setters.validate],
+        "list_nil_u": lambda: [mk_nil_hook_("nil_h_" + uid), h("h")],
     }[tag]()
 
 
@@ -218,6 +256,7 @@ def gen_field(rng, name, uid, p_hook):
     f["conv_nil"] = f["converter"] is not None and rng.random() < 0.2
     f["validator"] = rng.random() < 0.45
     f["on_setattr"] = rng.choice(OS_TAGS) if rng.random() < p_hook else None
+    f["falsy_hook"], f["falsy_val"], f["falsy_conv"] = pick_falsy(rng), pick_falsy(rng), pick_falsy(rng)
     return f
 
 
@@ -236,6 +275,7 @@ def gen_spec(rng, uid, base, force=None):
     r = rng.random()
     p_cls = 0.25 if frozen_eff else 0.5
     s["on_setattr"] = rng.choice(OS_TAGS + CLS_ONLY) if r < p_cls else None
+    s["falsy_hook"] = pick_falsy(rng)
     s["auto_detect"] = None if rng.random() < 0.8 else rng.random() < 0.5
     s["user_setattr"] = rng.random() < 0.08
     n_fields = rng.choice([0, 1, 1, 2, 2, 3])
@@ -396,11 +436,18 @@ class Built:
                 kw["init"] = False
             if f["converter"] is not None:
                 mk = mk_nil_converter if f.get("conv_nil") else g.mk_converter
-                kw["converter"] = mk(f["name"], conv_sym(f), tuple(f["converter"]))
+                cv = mk(f["name"], conv_sym(f), tuple(f["converter"]))
+                if f.get("falsy_conv"):
+                    if isinstance(cv, attr.Converter):
+                        cv = attr.Converter(falsify(cv.converter, f["falsy_conv"]), takes_self=cv.takes_self,
+                                            takes_field=cv.takes_field)
+                    else:
+                        cv = falsify(cv, f["falsy_conv"])
+                kw["converter"] = cv
             if f["validator"]:
-                kw["validator"] = g.mk_validator(f["name"], "v_" + fu)
+                kw["validator"] = falsify(g.mk_validator(f["name"], "v_" + fu), f.get("falsy_val"))
             if f["on_setattr"] is not None:
-                kw["on_setattr"] = resolve(f["on_setattr"], fu)
+                kw["on_setattr"] = resolve(f["on_setattr"], fu, f.get("falsy_hook"))
             body[f["name"]] = attr.ib(**kw) if s["api"] == "attrs" else attrs.field(**kw)
         if s["user_setattr"]:
             body["__setattr__"] = mk_user_setattr("U_" + s["uid"])
@@ -412,7 +459,7 @@ class Built:
         if s["auto_detect"] is not None:
             kwargs["auto_detect"] = s["auto_detect"]
         if s["on_setattr"] is not None:
-            kwargs["on_setattr"] = resolve(s["on_setattr"], s["uid"])
+            kwargs["on_setattr"] = resolve(s["on_setattr"], s["uid"], s.get("falsy_hook"))
         if s["api"] == "attrs":
             kwargs["eq"] = False
         try:
@@ -815,8 +862,14 @@ def note(bt):
             _dist["slotted_confused_shape"] += 1
         if frozen_base_hidden_shape(bt):
             _dist["frozen_base_hidden_shape"] += 1
+    if s["on_setattr"] not in (None, "NO_OP") and s.get("falsy_hook"):
+        _dist["falsy class-level hook objects"] += 1
     for f in s["fields"]:
         _dist["fld_on_setattr=%s" % f["on_setattr"]] += 1
+        for k_, w in (("falsy_hook", f["on_setattr"] not in (None, "NO_OP")), ("falsy_val", f["validator"]),
+                      ("falsy_conv", f["converter"] is not None)):
+            if w and f.get(k_):
+                _dist["falsy field-level %s objects" % k_[6:]] += 1
         _dist["conv=%s" % (f["converter"] and (f["converter"][0] + ("+self" if f["converter"][0] == "conv" and f["converter"][1] else "")
                                                + ("+field" if f["converter"][0] == "conv" and f["converter"][2] else "")))] += 1
 
@@ -862,9 +915,93 @@ def rerun(inp):
     return cs[0]
 
 
+# --------------------------------------------------------------------------------------
+# regression corpus: repaired deviations of this property (each returns None when the repair holds)
+
+
+class _Falsy:
+    def __init__(self, fn):
+        self.fn = fn
+
+    def __call__(self, *a):
+        return self.fn(*a)
+
+    def __bool__(self):
+        return False
+
+
+def F26_C06_falsy_field_hook():
+    """a field-level on_setattr hook given as a falsy callable object is the field's hook (not replaced by the
+    class-level one, not dropped)"""
+    calls = []
+    fld = _Falsy(lambda i, a, v: calls.append(("field", v)) or ("F", v))
+    cls_hook = lambda i, a, v: calls.append(("class", v)) or ("C", v)
+
+    @attr.s(on_setattr=cls_hook)
+    class A:
+        x = attr.ib(default=0, on_setattr=fld)
+
+    @attr.s
+    class B:
+        x = attr.ib(default=0, on_setattr=fld)
+
+    a, b_ = A(), B()
+    a.x = 1
+    b_.x = 2
+    if a.x != ("F", 1) or b_.x != ("F", 2) or calls != [("field", 1), ("field", 2)]:
+        return "falsy field-level hook not honoured: A().x=%r B().x=%r calls=%r" % (a.x, b_.x, calls)
+    return None
+
+
+def F24_C06_falsy_validator_on_assignment():
+    """setters.validate (explicit and through define's default) runs a validator object that is falsy"""
+    seen = []
+    val = _Falsy(lambda i, a, v: seen.append(v))
+
+    @attr.s(on_setattr=setters.validate)
+    class A:
+        x = attr.ib(default=0, validator=val)
+
+    @attrs.define
+    class D:
+        x: int = attrs.field(default=0, validator=val)
+
+    A().x = 1
+    D().x = 2
+    if seen != [0, 1, 0, 2]:
+        return "falsy validator object skipped: validator saw %r, expected [0, 1, 0, 2]" % (seen,)
+    return None
+
+
+def F27_C06_falsy_converter_on_assignment():
+    """setters.convert (explicit and through define's default) runs a converter object that is falsy"""
+    conv = _Falsy(lambda v: ("conv", v))
+
+    @attr.s(on_setattr=setters.convert)
+    class A:
+        x = attr.ib(default=0, converter=conv)
+
+    @attrs.define
+    class D:
+        x: int = attrs.field(default=0, converter=conv)
+
+    a, d = A(), D()
+    a.x = 1
+    d.x = 2
+    if a.x != ("conv", 1) or d.x != ("conv", 2) or D(2).x != d.x:
+        return "falsy converter object skipped on assignment: %r %r (construction gives %r)" % (a.x, d.x, D(2).x)
+    return None
+
+
+OWN_CORPUS = [("F26_C06_falsy_field_hook", F26_C06_falsy_field_hook),
+              ("F24_C06_falsy_validator_on_assignment", F24_C06_falsy_validator_on_assignment),
+              ("F27_C06_falsy_converter_on_assignment", F27_C06_falsy_converter_on_assignment)]
+
+
 def corpus():
     import importlib.util, os
     spec = importlib.util.spec_from_file_location("verif_defects", os.path.join(vlib.VERIF, "corpus", "defects.py"))
     m = importlib.util.module_from_spec(spec)
     spec.loader.exec_module(m)
-    return [(k, f) for k, f in m.ALL.items() if "_%s_" % PROP in k]
+    have = [(k, f) for k, f in m.ALL.items() if "_%s_" % PROP in k]
+    return have + [(k, f) for k, f in OWN_CORPUS if k not in dict(have)]
